@@ -11,6 +11,9 @@ package main
 //                 g.<at ms>.<key>                                   cacheCtl.Get
 //                 e.<at ms>.<key>.<rcode>.<ttl_ttl|x>               (round 4) cacheCtl.Store of an ERROR response (set-if-absent)
 //            -> one token per op: s | e | r | x | M | H<source op index>:<ttl_ttl...>
+//                 v.<at ms>.<ms>                                    (round 6) the redis SERVER's clock jumps ahead by ms
+//   rediscmd (round 6): same driver, cmd=1 on the case line: the token of every store op carries the SET command the
+//            fake server received for it: s{SET:<px ms>} | e{SETNX:<px ms>} | ..{SET:nopx} | ..{none} (no command within 120 ms)
 //   redisneg: same driver and grammar, with mem=<0|1> on the case line: mem=0 is the redis-ONLY configuration
 //            (cache.redis set, mem_size 0); sequences positive / error (every rcode) / get
 //
@@ -38,6 +41,7 @@ import (
 func init() {
 	register("promote", 16, runPromote)
 	register("redisneg", 48, runPromote)
+	register("rediscmd", 64, runPromote)
 }
 
 type fakeRedis struct {
@@ -51,6 +55,52 @@ type fakeRedis struct {
 	// setDelay(n) is slept before the reply to the n-th SET is written (a slow server: the client's set loop lags).
 	onSet    func(k, v []byte, nx bool)
 	setDelay func(n int) time.Duration
+	// round 6: the SET commands as received (verb flags), and a virtual clock: [skew] is added to the process clock
+	// wherever the server looks at the time, so that "an hour later" costs nothing.  A key SET without PX never expires.
+	cmds []fakeRedisCmd
+	skew time.Duration
+}
+
+type fakeRedisCmd struct {
+	nx bool
+	px int64 // milliseconds; -1 = the command carried no PX
+}
+
+func (r *fakeRedis) now() time.Time {
+	r.mu.Lock()
+	defer r.mu.Unlock()
+	return time.Now().Add(r.skew)
+}
+
+// advance moves the server's clock forward
+func (r *fakeRedis) advance(d time.Duration) {
+	r.mu.Lock()
+	r.skew += d
+	r.mu.Unlock()
+}
+
+// setCmd returns the n-th SET command received (0-based), waiting up to `wait` for it to arrive
+func (r *fakeRedis) setCmd(n int, wait time.Duration) (fakeRedisCmd, bool) {
+	dl := time.Now().Add(wait)
+	for {
+		r.mu.Lock()
+		if n < len(r.cmds) {
+			c := r.cmds[n]
+			r.mu.Unlock()
+			return c, true
+		}
+		r.mu.Unlock()
+		if time.Now().After(dl) {
+			return fakeRedisCmd{}, false
+		}
+		time.Sleep(5 * time.Millisecond)
+	}
+}
+
+func (r *fakeRedis) setCount() int {
+	r.mu.Lock()
+	defer r.mu.Unlock()
+	return len(r.cmds)
 }
 
 type fakeRedisVal struct {
@@ -84,7 +134,7 @@ func (r *fakeRedis) close() { r.l.Close() }
 // put: what a SET k v PX ms from another client does
 func (r *fakeRedis) put(k, v []byte, px time.Duration) {
 	r.mu.Lock()
-	r.data[string(k)] = fakeRedisVal{append([]byte(nil), v...), time.Now().Add(px)}
+	r.data[string(k)] = fakeRedisVal{append([]byte(nil), v...), time.Now().Add(r.skew).Add(px)}
 	r.mu.Unlock()
 }
 
@@ -153,7 +203,7 @@ func (r *fakeRedis) conn(c net.Conn) {
 			r.mu.Lock()
 			r.gets++
 			e, ok := r.data[string(args[1])]
-			if ok && !time.Now().Before(e.deadline) {
+			if ok && !time.Now().Add(r.skew).Before(e.deadline) {
 				delete(r.data, string(args[1]))
 				ok = false
 			}
@@ -204,8 +254,13 @@ func (r *fakeRedis) conn(c net.Conn) {
 					time.Sleep(d)
 				}
 			}
-			now := time.Now()
 			r.mu.Lock()
+			now := time.Now().Add(r.skew)
+			pxms := int64(-1)
+			if px >= 0 {
+				pxms = px.Milliseconds()
+			}
+			r.cmds = append(r.cmds, fakeRedisCmd{nx: nx, px: pxms})
 			r.sets++
 			e, present := r.data[string(args[1])]
 			if present && !now.Before(e.deadline) {
@@ -291,7 +346,7 @@ func promoParse(s string) ([]promoOp, error) {
 			if err == nil {
 				op.ttls, err = promoTTLs(p[5])
 			}
-		case (op.kind == 'x' || op.kind == 'g') && len(p) == 3:
+		case (op.kind == 'x' || op.kind == 'g' || op.kind == 'v') && len(p) == 3:
 		default:
 			err = fmt.Errorf("bad op")
 		}
@@ -358,9 +413,26 @@ func runPromote(id string, parts []string) string {
 					if err != nil {
 						return "HARNESS-ERROR wire"
 					}
+					nset := fr.setCount()
 					c.Store(q, netip.Addr{}, m)
 					dnsmsg.ReleaseMsg(m)
-					out = append(out, string(op.kind))
+					tok := string(op.kind)
+					if f["cmd"] == "1" { // the command as the server received it
+						if cm, ok := fr.setCmd(nset, 120*time.Millisecond); !ok {
+							tok += "{none}"
+						} else {
+							verb := "SET"
+							if cm.nx {
+								verb = "SETNX"
+							}
+							if cm.px < 0 {
+								tok += "{" + verb + ":nopx}"
+							} else {
+								tok += fmt.Sprintf("{%s:%d}", verb, cm.px)
+							}
+						}
+					}
+					out = append(out, tok)
 				case 'r':
 					m, err := dnsmsg.UnpackMsg(c08Wire(uint16(i+1), name, 0, false, op.ttls))
 					if err != nil {
@@ -374,6 +446,9 @@ func runPromote(id string, parts []string) string {
 					}
 					fr.put(k, v, op.remain)
 					out = append(out, "r")
+				case 'v':
+					fr.advance(time.Duration(op.key) * time.Millisecond)
+					out = append(out, "v")
 				case 'x':
 					if memSize == 0 {
 						return "HARNESS-ERROR op x without a memory backend"
